@@ -44,8 +44,8 @@ UNIT_PAIRS = [('gram', 'milligram'), ('second', 'minute'), ('liter', 'liter')]
 @st.composite
 def strategy_(draw, tier):
     if draw(st.integers(0, 2)) == 0:
-        spec = draw(struct.histories(viewers=False, residents=False,
-                                     step_op_ok=True))
+        spec = draw(struct.histories(viewers=False, residents=True,
+                                     inc_ok=False, step_op_ok=True))
         spec['kind'] = 'struct'
         return spec
     n = draw(st.integers(2, 7))
@@ -310,6 +310,20 @@ def run_struct(spec, res):
         kit.fill_initial_snapshots(ctx, engine)
         for _ in range(len(spec['ticks']) + 1):
             engine.update(1)
+        emits = [ev for ev in ctx.log if ev[0] == 'emit']
+        if not emits or emits[0][1] != 'configuration':
+            res.fail('first_record', 'first emitted record is %r'
+                     % (emits[0][1] if emits else None,))
+            return
+        nconf = sum(1 for ev in emits if ev[1] == 'configuration')
+        if nconf != 1:
+            res.fail('configuration.count', '%d configuration records were '
+                     'emitted (at engine times %r); exactly one is expected, '
+                     'before the first row' % (
+                         nconf, [ev[2] for ev in emits
+                                 if ev[1] == 'configuration']),
+                     'engine.py:_emit_configuration')
+            return
         hist = [ev for ev in ctx.log if ev[0] == 'emit' and ev[1] == 'history']
         shapes = set()
         prev_t = None
